@@ -149,6 +149,7 @@ func TestCheck(t *testing.T) {
 		"event level: events are pushed into the real headerInCh/dataInCh one at a time and the SyncLoop runs to quiescence in between (a buffered pair consumed in either order has the same consumer-side history as one of the explored orders)",
 		"data metadata is not compared; an empty block needs only its header",
 		"producer chains are produced by a real aggregator run; executor double = hash-chain reference",
+		"ingress level: all five loops of the full node under the cooperative scheduler; blobs within <=2/3 deviations from the in-order placement on 3 DA heights; P2P stores empty or holding the chain; the sends into the sync loop's input channels are diverted into harness-side FIFOs (buffered-channel semantics) and the explorer decides at every point where an event is deliverable who goes next (a producer running ahead, the next header, the next data event; <=1/2 deviations from 'producers, headers, data') and whether the node is cleanly restarted right there (queued events are lost with the process)",
 	}
 	var patterns []string
 	for k := 1; k <= nAbove; k++ {
@@ -168,6 +169,7 @@ func TestCheck(t *testing.T) {
 		var h struct {
 			Pattern string
 			Initial uint64
+			Ingress bool
 			Choices []explore.Point
 		}
 		if _, err := r.LoadReplay(&h); err != nil {
@@ -176,7 +178,13 @@ func TestCheck(t *testing.T) {
 			r.EngineError(err.Error())
 		} else {
 			explore.ReplayOne(h.Choices, func(c *explore.Ctx) {
-				if o := body(t, c, pc); o.fail != nil {
+				o := outcome{}
+				if h.Ingress {
+					o = ingressBody(t, c, pc)
+				} else {
+					o = body(t, c, pc)
+				}
+				if o.fail != nil {
 					fmt.Println(o.fail.Msg, o.trace)
 					r.Report(vf.Violation{Clause: o.fail.Clause, Tags: o.tags, Msg: o.fail.Msg, History: h})
 				}
@@ -219,10 +227,48 @@ func TestCheck(t *testing.T) {
 			caps = append(caps, j.pattern+": "+st.Capped)
 		}
 	}
+	// level 2: ingress loops, DA placement, restart between any two steps
+	l2patterns := vf.Pick(r, []string{"ab"}, []string{"ab", "ea"})
+	l2budgets := vf.Pick(r, map[string]int{"place": 1, "order": 1, "restart": 1}, map[string]int{"place": 2, "order": 1, "restart": 1})
+	var l2 explore.Stats
+	for _, pt := range l2patterns {
+		pc, err := world.BuildChain(pt, 1)
+		if err != nil {
+			r.EngineError(err.Error())
+			continue
+		}
+		left := time.Until(deadline)
+		if left <= 0 {
+			caps = append(caps, "deadline reached before ingress pattern "+pt)
+			break
+		}
+		st := explore.Explore(explore.Config{Budgets: l2budgets, Deadline: left}, func(c *explore.Ctx) {
+			o := ingressBody(t, c, pc)
+			if o.fail != nil {
+				r.Report(vf.Violation{Clause: o.fail.Clause, Tags: append(o.tags, "ingress-level"), Msg: fmt.Sprintf("[ingress level, chain genesis+%q] %s\n %s", pt, o.fail.Msg, strings.Join(o.trace, " ")), Cost: c.Cost(), History: map[string]any{"Pattern": pt, "Initial": 1, "Ingress": true, "Choices": c.Choices()}})
+				r.Outcome("L2:fail:" + o.fail.Clause)
+				return
+			}
+			r.Outcome("L2:" + pt + ":" + strings.Join(o.trace, " "))
+			if c.Cost() >= 2 {
+				r.Sample(map[string]any{"level": "ingress", "chain": "genesis+" + pt, "trace": strings.Join(o.trace, " "), "final_height": o.height})
+			}
+		})
+		l2.Executions += st.Executions
+		l2.Points += st.Points
+		for _, m := range st.Nondet {
+			r.EngineError("nondeterminism (ingress level): " + m)
+		}
+		if st.Capped != "" {
+			caps = append(caps, "ingress "+pt+": "+st.Capped)
+		}
+	}
+	total.Executions += l2.Executions
+	total.Points += l2.Points
 	r.Finish(vf.Coverage{
 		Evaluations: total.Executions, DistinctNontrivial: int64(r.DistinctOutcomes()), States: total.Executions, Transitions: total.Points,
 		Rule:       "for every producer chain pattern over {empty, A, B} of 1..n blocks above the genesis block (incl. identical transaction lists) and two chains with initial height 3: every permutation of the header/data events, with at most one duplicated event at any later position and at most one clean stop/restart at any idle point; distinct = distinct delivery traces",
 		Exhaustive: true, Caps: caps,
-		Bounds:     map[string]any{"blocks_above_genesis": nAbove, "patterns": len(jobs), "budgets": budgets},
+		Bounds:     map[string]any{"blocks_above_genesis": nAbove, "patterns": len(jobs), "budgets": budgets, "ingress_patterns": l2patterns, "ingress_budgets": l2budgets, "ingress_executions": l2.Executions},
 	})
 }
